@@ -4,7 +4,7 @@ from formulaic.parser.algos.tokenize import tokenize
 
 from harness import parser_common as pc
 
-for _k, _v in (("__SHARD__", 0), ("__N__", 2), ("__J__", 0), ("__S__", 1)):
+for _k, _v in (("__SHARD__", 0), ("__N__", 2), ("__J__", 0), ("__S__", 1), ("__C3LO__", 13), ("__C2LO__", 13)):
     globals().setdefault(_k, _v)
 
 
@@ -206,6 +206,36 @@ def spans(s: str) -> bool:
 
 # ---- Python normalisation (CH-enum)
 
+LIT_ALPHABET = [" ", "x", "\t", "#", "(", "`", "{", "]", ")", "~", "+", "'", '"']  # 13 characters
+
+
+def pylit(q: int, c0: int, c1: int, c2: int, c3: int, wrap: int) -> bool:
+    """
+    pre: 0 <= q < 2 and 0 <= c0 <= 13 and 0 <= c1 <= 13 and 0 <= c2 <= 13 and 0 <= c3 <= 13 and 0 <= wrap < 2 and c0 == __SHARD__ and c2 >= __C2LO__ and c3 >= __C3LO__
+    post: _
+    """
+    # String literals inside Python fragments are content, not formatting: whatever the normaliser does to the code, the
+    # literal the evaluated code receives is the literal that was written.  Index 13 = "no character at this position".
+    q, wrap = _pick(q, 0, 1), _pick(wrap, 0, 1)
+    cs = [_pick(c, 0, 13) for c in (c0, c1, c2, c3)]
+    text = "".join(LIT_ALPHABET[c] for c in cs if c < 13)
+    quote = "'\""[q]
+    if quote in text:
+        return True
+    src = ["f(" + quote + text + quote + ")", "{d[" + quote + text + quote + "]}"][wrap]
+    import ast
+
+    from formulaic.formula import Formula
+
+    f = Formula.from_spec(src)
+    terms = [t for t in f if repr(t) != "1"]
+    if len(terms) != 1 or len(terms[0].factors) != 1:
+        return False
+    node = ast.parse(list(terms[0].factors)[0].expr, mode="eval").body
+    lit = node.args[0] if wrap == 0 else node.slice
+    return ast.literal_eval(lit) == text
+
+
 FRAGMENTS = [
     ("f(a,b)", ["f( a , b )", "f(a,  b)", "f(a ,b)"]),
     ("{a+b}", ["{ a + b }", "{ a+b}", "{a+ b }"]),
@@ -263,6 +293,9 @@ def explain(fname, call):
             return f"spans: tokens of {a[0]!r}: {[(t.token, t.kind.value, t.source_start, t.source_end) for t in tokenize(a[0])]}"
         if fname == "pystr":
             return f"quoting: python fragment {PYSTR[a[0]]!r} (strings / quoted names containing brackets) is not taken verbatim"
+        if fname == "pylit":
+            text = "".join(LIT_ALPHABET[c] for c in a[1:5] if c < 13)
+            return f"string-literal-changed: the literal {text!r} written inside a Python fragment ({['call', 'brace-quoted subscript'][a[5]]}) is not the literal the factor evaluates"
         if fname == "pynorm":
             return f"python-normalisation: {FRAGMENTS[a[0]][0]!r} vs {FRAGMENTS[a[0]][1][a[1]]!r}"
     except Exception as e:
